@@ -128,6 +128,15 @@ PoolC02count(hostAxes) ==
                      Path(FALSE, <<Step("child", NTAny, <<>>), Step("child", NTAny, <<>>)>>),
                      Path(FALSE, <<Step("child", NTAny, <<>>), Step("following-sibling", NTAny, <<>>)>>)}}
 
+\* count() of a child step that carries a boolean predicate followed by [n]: a boolean predicate of the HOST step whose
+\* argument keeps running positions.  The verdict for one candidate must not depend on the candidates tested before it
+\* (the engine clones the argument for every call; a clone shared between calls would carry the positions over).
+PoolC02countpos(hostAxes) ==
+    UNION {HostForms(Step(hax, NTAny, <<Bin(op, Call("count", <<pp>>), N(k))>>)) : hax \in hostAxes, op \in {"=", ">"}, k \in 0 .. 1,
+             pp \in {Path(FALSE, <<Step("child", nt, <<bp, N(n)>>)>>) :
+                        nt \in {NTAny, NTName("a")}, n \in 1 .. 2,
+                        bp \in {Rel1("child", NTAny), Call("not", <<Rel1("child", NTAny)>>), Bin("=", SelfDot, Lit("1"))}}}
+
 \* parenthesised path followed by a boolean predicate:  (path)[p]
 PoolC02paren(paths, A) == {Filter(pa, <<p>>, <<>>) : pa \in paths, p \in A}
 \* ... followed by several predicates, and by further steps
